@@ -302,3 +302,74 @@ def ap_variants(ap: dict, rng: random.Random):
         q = copy.deepcopy(ap)
         q["graphs"][q["nodes"][n]["s"][0]]["args"] = None
         yield "body-args-unspecified", q
+
+
+def handmade_aps():
+    """Fixed abstract programs (low-level API): argument lists shared between a body and a body nested
+    in it, the probe programs of the design round."""
+
+    def arg(t):
+        return {"k": "arg", "ty": t, "a": True, "i": [], "s": []}
+
+    def node(k, i, s=(), ty="f"):
+        return {"k": k, "ty": ty, "a": False, "i": list(i), "s": list(s)}
+
+    # nested Loops whose body graphs are built over the *same* argument Vars
+    nested_shared = {
+        "nodes": [arg("f"), arg("b"), arg("i"), arg("b"), arg("f"),
+                  node("neg", [4]),                # 5 (inner body)
+                  node("loop", [4], [2]),          # 6 inner loop, body graph 2
+                  node("sum", [6]),                # 7 (outer body)
+                  node("loop", [0], [1]),          # 8 outer loop, body graph 1
+                  node("sum", [8, 0])],            # 9
+        "graphs": [{"args": [0, 1], "res": [9]},
+                   {"args": [2, 3, 4], "res": [3, 7]},
+                   {"args": [2, 3, 4], "res": [3, 5]}],
+    }
+    yield "nested-bodies-share-arguments", nested_shared
+    # the same with only one argument shared
+    yield "nested-bodies-share-one-argument", {
+        "nodes": [arg("f"), arg("b"), arg("i"), arg("b"), arg("f"), arg("i"), arg("b"),
+                  node("neg", [4]),                # 7 (inner body)
+                  node("loop", [4], [2]),          # 8 inner loop
+                  node("sum", [8]),                # 9 (outer body)
+                  node("loop", [0], [1]),          # 10 outer loop
+                  node("sum", [10, 0])],           # 11
+        "graphs": [{"args": [0, 1], "res": [11]},
+                   {"args": [5, 6, 4], "res": [6, 9]},
+                   {"args": [2, 3, 4], "res": [3, 7]}],
+    }
+    # main claims an argument that a body also claims
+    yield "main-and-body-share-argument", {
+        "nodes": [arg("f"), arg("b"), arg("i"), arg("b"), arg("f"),
+                  node("add", [4, 0]),             # 5
+                  node("loop", [0], [1]),          # 6
+                  node("sum", [6, 0])],            # 7
+        "graphs": [{"args": [0, 1, 4], "res": [7]},
+                   {"args": [2, 3, 4], "res": [3, 5]}],
+    }
+    # sibling Loops: the second body uses the first body's carried argument (design probe p4)
+    yield "sibling-argument-leak", {
+        "nodes": [arg("f"), arg("b"), arg("i"), arg("b"), arg("f"),
+                  node("add", [4, 0]),             # 5
+                  node("loop", [0], [1]),          # 6
+                  arg("i"), arg("b"), arg("f"),    # 7 8 9
+                  node("add", [9, 4]),             # 10: leaked argument 4
+                  node("loop", [6], [2])],         # 11
+        "graphs": [{"args": [0, 1], "res": [11]},
+                   {"args": [2, 3, 4], "res": [3, 5]},
+                   {"args": [7, 8, 9], "res": [8, 10]}],
+    }
+    # the reverse order: the body that uses the foreign argument is compiled first
+    yield "sibling-argument-leak-used-first", {
+        "nodes": [arg("f"), arg("b"), arg("i"), arg("b"), arg("f"),
+                  node("add", [4, 0]),             # 5
+                  node("loop", [0], [1]),          # 6
+                  arg("i"), arg("b"), arg("f"),    # 7 8 9
+                  node("add", [9, 4]),             # 10
+                  node("loop", [0], [2]),          # 11
+                  node("add", [11, 6])],           # 12
+        "graphs": [{"args": [0, 1], "res": [12]},
+                   {"args": [2, 3, 4], "res": [3, 5]},
+                   {"args": [7, 8, 9], "res": [8, 10]}],
+    }
